@@ -557,6 +557,10 @@ class BehavioralRTLIRToVVisitorL1( bir.BehavioralRTLIRNodeVisitor ):
         return f'{value}[{idx}]'
       # Bit selection
       elif isinstance( Type.get_dtype(), rdt.Vector ):
+        if value[0].isdigit():
+          # a literal or a size cast (a constant): a select is only legal
+          # after an identifier or a concatenation
+          value = f'{{ {value} }}'
         return f'{value}[{idx}]'
       else:
         raise VerilogTranslationError( s.blk, node,
